@@ -115,6 +115,20 @@ where
                 "s_bits": sv.significant_bits(), "ls": C::ls}));
             let honest = guard(|| sig.verify_multiattr(&ks.pk, &ks.bases, &msgs));
             ev.push(json!({"op": "CLVerify", "suite": suite, "key": ki, "n": n, "mode": "multi", "alpha": vec![0; n], "beta": 0, "edit": "none", "stmt": "same", "res": b3(honest)}));
+            // bases supplied by the caller (small primes: some are quadratic non-residues), odd attributes:
+            // any base coprime to N must work
+            if n <= 3 {
+                let cb = Bases((0..n).map(|i| Integer::from([2u32, 3, 5, 7, 11][i])).collect());
+                let mo: Vec<CL03Message> = msgs.iter().map(|m| CL03Message::new(m.value.clone() | Integer::from(1))).collect();
+                for _ in 0..6 {
+                    let r = guard(|| Signature::<CL03<C>>::sign_multiattr(&ks.pk, &ks.sk, &cb, &mo).verify_multiattr(&ks.pk, &cb, &mo));
+                    ev.push(json!({"op": "CLVerify", "suite": suite, "key": ki, "n": n, "mode": "multi_custom_bases", "alpha": vec![0; n], "beta": 0, "edit": "none", "stmt": "same", "res": b3(r)}));
+                }
+                if n == 1 {
+                    let r = guard(|| Signature::<CL03<C>>::sign(&ks.pk, &ks.sk, &cb, &mo[0]).verify(&ks.pk, &cb, &mo[0]));
+                    ev.push(json!({"op": "CLVerify", "suite": suite, "key": ki, "n": 1, "mode": "single_custom_bases", "alpha": [0], "beta": 0, "edit": "none", "stmt": "same", "res": b3(r)}));
+                }
+            }
             // encodings
             let rt = guard(|| {
                 let b = sig.to_bytes();
@@ -311,6 +325,20 @@ where
                         });
                         ev.push(json!({"op": "CLUpdate", "suite": suite, "key": ki, "n": n, "U": u, "new_ok": b3(r.clone().map(|x| x.0)), "old_ok": b3(r.map(|x| x.1))}));
                     }
+                    // the hidden set written in descending order (same slice on both sides): any order is a valid way to
+                    // name the set
+                    if u.len() >= 2 && !trusted {
+                        let ur: Vec<usize> = u.iter().rev().cloned().collect();
+                        let r = guard(|| {
+                            let c2 = Commitment::<CL03<C>>::commit_with_pk(&msgs, &ks.pk, &ks.bases, Some(&ur));
+                            let z2 = ZKPoK::<CL03<C>>::generate_proof(&msgs, c2.cl03Commitment(), None, &ks.pk, &ks.bases, None, &ur);
+                            let vp = z2.verify_proof(c2.cl03Commitment(), None, &ks.pk, &ks.bases, None, &ur);
+                            let bs = BlindSignature::<CL03<C>>::blind_sign(&ks.pk, &ks.sk, &ks.bases, &z2, Some(&revealed), c2.cl03Commitment(), None, None, &ur, Some(&revealed_idx));
+                            (vp, bs.unblind_sign(&c2).verify_multiattr(&ks.pk, &ks.bases, &msgs))
+                        });
+                        ev.push(json!({"op": "CLIssue", "suite": suite, "key": ki, "n": n, "U": ur, "trusted": false, "mismatch": "none",
+                            "verify_proof": b3(r.clone().map(|x| x.0)), "signed": r.is_ok(), "verifies": r.map(|x| x.1).unwrap_or(false)}));
+                    }
                     // mismatch families (the issuer must not sign): only for a sample of (n, U) in the quick tier
                     // mismatch families and leaf perturbations for a sample of (n, U): all of n <= 2 (thorough: n <= 3 with
                     // at most two hidden), the last position alone, everything hidden; first two keys only
@@ -337,6 +365,35 @@ where
                         let r = guard(|| f());
                         let refused = !matches!(r, Ok(true));
                         ev.push(json!({"op": "CLIssue", "suite": suite, "key": ki, "n": n, "U": u, "trusted": trusted, "mismatch": name, "verify_proof": b3(r), "signed": !refused, "verifies": false}));
+                    }
+                    // a proof assembled for ANOTHER commitment by a prover that assumes the challenge does not cover its
+                    // first message t (weak Fiat-Shamir): responses chosen first, t solved for
+                    {
+                        let mut zj = serde_json::to_value(&zk).unwrap();
+                        let cy = c_other.cl03Commitment();
+                        let mut s_in = String::new();
+                        let mut lhs = Integer::from(1);
+                        let mut s1 = vec![];
+                        for &i in &u {
+                            s_in += &ks.bases.0[i].to_string();
+                            let r1 = rng.bits(C::lm + 256);
+                            lhs = (lhs * pow_signed_big(&ks.bases.0[i], &r1, &ks.pk.N)).modulo(&ks.pk.N);
+                            s1.push(r1);
+                        }
+                        let s2 = rng.bits(C::ln + 256);
+                        lhs = (lhs * pow_signed_big(&ks.pk.b, &s2, &ks.pk.N)).modulo(&ks.pk.N);
+                        s_in = s_in + &ks.pk.b.to_string() + &cy.value.to_string();
+                        let c_weak = Integer::from_digits(<C::HashAlg as Digest>::digest(s_in).as_slice(), rug::integer::Order::MsfBe);
+                        let t = (lhs * pow_signed_big(&cy.value, &(-c_weak), &ks.pk.N)).modulo(&ks.pk.N);
+                        zj["CL03"]["proof_commited_msgs"]["t"] = serde_json::to_value(&t).unwrap();
+                        zj["CL03"]["proof_commited_msgs"]["s1"] = serde_json::to_value(&s1).unwrap();
+                        zj["CL03"]["proof_commited_msgs"]["s2"] = serde_json::to_value(&s2).unwrap();
+                        let r = guard(|| {
+                            let z2: ZKPoK<CL03<C>> = serde_json::from_value(zj).unwrap();
+                            z2.verify_proof(cy, ct, &ks.pk, &ks.bases, cpk, &u)
+                        });
+                        let refused = !matches!(r, Ok(true));
+                        ev.push(json!({"op": "CLIssue", "suite": suite, "key": ki, "n": n, "U": u, "trusted": trusted, "mismatch": "crafted_weak_fiat_shamir", "verify_proof": b3(r), "signed": !refused, "verifies": false}));
                     }
                     if !trusted {
                         // the issuer demands a trusted commitment but the holder's proof was made without one
@@ -615,6 +672,28 @@ where
                             });
                             ev.push(json!({"op": "CLRange", "suite": suite, "key": ki, "bases": bname, "width": wname, "x": xname, "case": format!("transplant:onesided_{side}"), "res": b3(res)}));
                         }
+                    }
+                    // transplant with degenerate proofs of square: F = 0 (not a unit) makes both sides of the same-secret
+                    // equation 0 for d = 1, so the challenge would be the constant H("00")
+                    {
+                        let tx = b.clone() + 1;
+                        let r2 = rng.bits(C::ln);
+                        let e2 = (pow_signed_big(g, &tx, n) * pow_signed_big(h, &r2, n)).modulo(n);
+                        let c00 = Integer::from_digits(<C::HashAlg as Digest>::digest("00").as_slice(), rug::integer::Order::MsfBe);
+                        let res = guard(|| {
+                            [false, true].iter().any(|&wd| {
+                                let mut p = serde_json::to_value(transplant::<C>(&pj, &e2, g, n, &a, &b, wd)).unwrap();
+                                for side in ["a", "b"] {
+                                    let e1 = p["proof_of_tolerance"][format!("E_{side}_1")].clone();
+                                    p["proof_of_tolerance"][format!("proof_of_square_{side}")] = json!({"E": e1, "F": serde_json::to_value(&Integer::from(0)).unwrap(),
+                                        "proof_ss": {"challenge": serde_json::to_value(&c00).unwrap(), "d": serde_json::to_value(&Integer::from(1)).unwrap(),
+                                                     "d_1": serde_json::to_value(&Integer::from(0)).unwrap(), "d_2": serde_json::to_value(&Integer::from(0)).unwrap()}});
+                                }
+                                let pp: Boudot2000RangeProof = serde_json::from_value(p).unwrap();
+                                pp.verify::<C::HashAlg>(g, h, n, &a, &b)
+                            })
+                        });
+                        ev.push(json!({"op": "CLRange", "suite": suite, "key": ki, "bases": bname, "width": wname, "x": xname, "case": "transplant:degenerate_squares", "res": b3(res)}));
                     }
                     let rnd = rng.below_int(n).pow_mod(&Integer::from(2), n).unwrap();
                     let res = guard(|| [false, true].iter().any(|&wd| transplant::<C>(&pj, &rnd, g, n, &a, &b, wd).verify::<C::HashAlg>(g, h, n, &a, &b)));
